@@ -96,11 +96,11 @@ static void __attribute__((noinline)) poison_stack(int fill) {
 static void do_deserialize(Binson &b, int k, const std::string &bytes, int fill) {
     if (k == 1) {
         std::vector<uint8_t> v(bytes.begin(), bytes.end()); v.shrink_to_fit();
-        poison_stack(fill);
+        if (fill >= 0) poison_stack(fill);
         b.deserialize(v);
     } else if (k == 2) {
         uint8_t *ex = (uint8_t *)malloc(bytes.size() ? bytes.size() : 1); memcpy(ex, bytes.data(), bytes.size());
-        try { poison_stack(fill); b.deserialize(bytes.size() ? ex : ex, bytes.size()); } catch (...) { free(ex); throw; }
+        try { if (fill >= 0) poison_stack(fill); b.deserialize(bytes.size() ? ex : (const uint8_t *)nullptr, bytes.size()); }   /* nothing to parse: (NULL, 0), what an empty container's data() gives */ catch (...) { free(ex); throw; }
         free(ex);
     } else {
         uint8_t *ex = (uint8_t *)malloc(bytes.size() ? bytes.size() : 1); memcpy(ex, bytes.data(), bytes.size());
@@ -147,7 +147,12 @@ static void exec_line(const std::string &line) {
         }
         if ((t[0].size() == 3 || pre) && t[0][0] == 'x' && t[0][1] == 'd' && t.size() >= 3) {
             Binson c; if (pre) { c.put("zz", BinsonValue((int64_t)1)); c.put("", BinsonValue(std::string("old"))); }
-            do_deserialize(c, t[0][2] - '0', unhex(t[2]), atoi(t[1].c_str()));
+            int fill = atoi(t[1].c_str());
+            if (fill < 0) {   /* fill -1: no poisoning - the stack holds what a successful deserialize of another document through the same overload left there */
+                static const char good[] = "\x40\x14\x01\x61\x10\x07\x14\x01\x62\x14\x02hi\x41";
+                Binson g; do_deserialize(g, t[0][2] - '0', std::string(good, sizeof good - 1), 0xC8);
+            }
+            do_deserialize(c, t[0][2] - '0', unhex(t[2]), fill);
             std::vector<uint8_t> w = c.serialize();
             fprintf(fout, "ok %s\n", hex(w.data(), w.size()).c_str()); return;
         }
